@@ -14,8 +14,8 @@ RULE = ('nestings (depth <= 3) of the mode wrappers Auto / Fill / Match placed a
         'a dict) and T leaves; argument-position literals (Coalesce default, Call arguments, S(k=...) values) built from nested '
         'dict / list / tuple / set shapes with T leaves, strings and callables. Observed: result (type, shape, identity) or exception '
         'class. Non-trivial: a wrapper followed or preceded by a probe inside the same chain / container, or a literal of depth >= 2.')
-ASSUMPTIONS = ['Group as a wrapper is exercised under C16; cyclic argument literals are checked by the direct oracle on the implementation '
-               'and by the graph theorem argmode_preserves_cycles (tree-shaped IR cannot express them)']
+ASSUMPTIONS = ['Group as a wrapper is exercised under C16; cyclic / shared argument literals (8 shapes x 4 argument sites) are decided on the implementation side by an '
+               'isomorphism check against the literal (the tree-shaped IR cannot express them); no graph theorem yet']
 SHARD = 300
 
 T = ['T', 'T', []]
@@ -95,7 +95,7 @@ def corpus():
 def generate(rng, tier):
     g = Gen(rng)
     n = 1200 if tier == 'quick' else 9000
-    out = []
+    out = [{'kind': 'cyclic', 'shape': sh, 'site': site} for sh in CYCLE_SHAPES for site in SITES]
     for i in range(n):
         if i % 4 == 3:
             out.append({'target': target(), 'spec': g.arg_case()})
@@ -104,12 +104,139 @@ def generate(rng, tier):
     return out
 
 
+# ---------- cyclic argument literals (decided on the implementation side: the tree-shaped IR cannot express them) ----------
+CYCLE_SHAPES = ['list-self', 'list-list', 'list-tuple', 'list-dict', 'dict-list', 'dict-self', 'dict-dict', 'list-shared']
+SITES = ['default', 'call', 'bind', 'assign']
+
+
+def cyclic_literal(shape):
+    import glom
+    T_ = glom.T
+    if shape == 'list-self':
+        l = [T_['n']]
+        l.append(l)
+        return l
+    if shape == 'list-list':
+        l = [T_['n']]
+        m = [l, 1]
+        l.append(m)
+        return l
+    if shape == 'list-tuple':
+        l = [T_['n']]
+        l.append((l, 2))
+        return l
+    if shape == 'list-dict':
+        l = [T_['n']]
+        l.append({'back': l, 'v': T_['n']})
+        return l
+    if shape == 'dict-list':
+        d = {'v': T_['n']}
+        d['l'] = [d, 3]
+        return d
+    if shape == 'dict-self':
+        d = {'v': T_['n']}
+        d['me'] = d
+        return d
+    if shape == 'dict-dict':
+        d = {'v': T_['n']}
+        d['e'] = {'up': d}
+        return d
+    shared = [T_['n']]
+    return [shared, shared, {'s': shared}]
+
+
+def expected_shape(lit, n):
+    """the literal with T['n'] replaced by n, as a fresh structure of the same (cyclic / shared) shape"""
+    import glom
+    memo = {}
+
+    def go(x):
+        if isinstance(x, glom.core.TType):
+            return n
+        if id(x) in memo:
+            return memo[id(x)]
+        if isinstance(x, list):
+            r = memo[id(x)] = []
+            r.extend(go(y) for y in x)
+            return r
+        if isinstance(x, dict):
+            r = memo[id(x)] = {}
+            for k, v in x.items():
+                r[k] = go(v)
+            return r
+        if isinstance(x, tuple):
+            return tuple(go(y) for y in x)
+        return x
+    return go(lit)
+
+
+def same_shape(a, b, seen=None):
+    """isomorphism of two possibly cyclic structures (same types, same sharing)"""
+    seen = {} if seen is None else seen
+    if isinstance(a, (list, dict)):
+        if id(a) in seen:
+            return seen[id(a)] is b
+        if type(a) is not type(b) or len(a) != len(b):
+            return False
+        seen[id(a)] = b
+        if isinstance(a, list):
+            return all(same_shape(x, y, seen) for x, y in zip(a, b))
+        return list(a) == list(b) and all(same_shape(a[k], b[k], seen) for k in a)
+    if isinstance(a, tuple):
+        return isinstance(b, tuple) and len(a) == len(b) and all(same_shape(x, y, seen) for x, y in zip(a, b))
+    return type(a) is type(b) and a == b
+
+
+def run_cyclic(case):
+    import glom
+    lit = cyclic_literal(case['shape'])
+    target = {'n': 7, 'box': {}}
+    site = case['site']
+    if site == 'default':
+        spec = glom.Coalesce('zz', default=lit)
+    elif site == 'call':
+        spec = glom.Call(lambda x: x, args=(lit,))
+    elif site == 'bind':
+        spec = (glom.S(k=lit), glom.S.k)
+    else:
+        spec = (glom.Assign('box.out', lit), 'box.out')
+    out = {}
+    try:
+        res = glom.glom(target, spec)
+    except BaseException as e:  # noqa: B036
+        return {'problems': ['a %s literal at the %s site: %s' % (case['shape'], site, type(e).__name__)]}
+    want = expected_shape(lit, 7)
+    if not same_shape(want, res):
+        out['problems'] = ['a %s literal at the %s site does not keep its shape: got %s, the literal has the shape of %s'
+                           % (case['shape'], site, _safe_repr(res), _safe_repr(want))]
+    elif res is lit:
+        out['problems'] = ['the literal itself was returned, not a rebuilt copy']
+    return out
+
+
+def _safe_repr(x):
+    try:
+        return repr(x)[:200]
+    except BaseException:  # noqa: B036
+        return '<unprintable>'
+
+
 def run_impl(case):
+    if case.get('kind') == 'cyclic':
+        return run_cyclic(case)
     return pyspec.run_glom(case)
 
 
-coq_case = c03.coq_case
-model_dump_term = c03.model_dump_term
+def coq_case(case, out):
+    if case.get('kind') == 'cyclic':
+        return '(mkI VNone (SRequired SM) [] (Unmodelled "harness") [])'
+    return c03.coq_case(case, out)
+
+
+def model_dump_term(case):
+    return '0' if case.get('kind') == 'cyclic' else c03.model_dump_term(case)
+
+
 python_snippet = c03.python_snippet
 
 
@@ -132,13 +259,19 @@ def _depth(ir):
 
 
 def nontrivial(case, out):
+    if case.get('kind') == 'cyclic':
+        return True
     return _has_wrapper_with_sibling(case['spec']) or _depth(case['spec']) >= 3
 
 
 def classify(case, out):
+    if case.get('kind') == 'cyclic':
+        return 'cyclic:%s:%s' % (case['shape'], case['site'])
     tag = 'raise:%s' % out['raise'] if 'raise' in out else 'ok'
     return '%s:%s' % (case['spec'][0], tag)
 
 
 def direct_oracle(case, out):
+    if out.get('problems'):
+        return '; '.join(out['problems'][:2])
     return None
